@@ -98,9 +98,16 @@ Definition carries (o : opts) (d : osm) (f : feature) (ts : tags) (m : meta) (pr
 Definition spec_rel_member (d : osm) (id : Z) : bool :=
   existsb (fun r => existsb (fun m => etype_eqb (m_type m) TNode && (m_ref m =? id)) (r_members r))
           (relations d).
+(* the published list of uninteresting keys (osmtogeojson's default; tag.go's table must be this
+   set: C17/GenOk.v) — the oracle uses the published list, the model the table of the code *)
+Definition published_uninteresting : list string :=
+  ["source"; "source_ref"; "source:ref"; "history"; "attribution"; "created_by";
+   "tiger:county"; "tiger:tlid"; "tiger:upload_uuid"]%string.
+Definition spec_uninteresting (k : string) : bool := existsb (String.eqb k) published_uninteresting.
+
 Definition spec_node_rule (d : osm) (n : node) : bool :=
   node_located n &&
-  (negb (way_member d (n_id n)) || existsb (fun kv => negb (uninteresting (fst kv))) (n_tags n)
+  (negb (way_member d (n_id n)) || existsb (fun kv => negb (spec_uninteresting (fst kv))) (n_tags n)
    || spec_rel_member d (n_id n)).
 
 (* ---- W ---- *)
